@@ -10,3 +10,36 @@ Proof. exact o_valid_spec. Qed.
 
 Theorem C10_reference : forall u P, o_solvable u P = true <-> solvable (table_provider u) P.
 Proof. exact o_solvable_spec. Qed.
+
+(* ---- for EVERY completion order of the encoder's futures (the events of
+   [enc_run] say which pending future completes next; Async/Encoder.v is tied to
+   encoding.rs + cache.rs clause for clause on every run, synchronous or not) ---- *)
+From Resolvo Require Import Async.EncoderClosed Cdcl.CheckRun.
+
+(* the encoder adds only facts ... *)
+Theorem C10_any_order_adds_facts : forall U P, WF U -> forall c evs st work,
+  enc_run U P (estate0 c) [] [] evs = Some (st, work) ->
+  forall x, In x (e_db st) -> factb U P (trk_idx (e_trk st)) x = true.
+Proof. exact enc_facts. Qed.
+
+(* ... encodes completely once nothing is pending ... *)
+Theorem C10_any_order_complete : forall U P c evs st,
+  enc_run U P (estate0 c) [] [] evs = Some (st, []) ->
+  (forall so, In so (e_sols st) -> deps_done U P st [] so) /\ (forall n, In n (e_pkgs st) -> pkg_done U st n).
+Proof. exact enc_complete. Qed.
+
+(* ... and never asks the provider twice (candidates, dependencies, filter) *)
+Theorem C10_any_order_once : forall U P H0 c0 evs st work,
+  CInv U c0 H0 -> enc_run U P (estate0 c0) [] [] evs = Some (st, work) ->
+  let H := H0 ++ e_calls st in
+  NoDup (flat_map EncoderCalls.k_cands H) /\ NoDup (flat_map k_deps H) /\
+  NoDup (flat_map k_match H) /\ NoDup (flat_map k_nonmatch H) /\
+  (exists vs, NoDup vs /\ flat_map k_sort H = map (matching U) vs) /\
+  CInv U (e_cache st) H.
+Proof. exact enc_once. Qed.
+
+(* the verdicts of two accepted runs of one problem agree, whatever order the
+   futures completed in: same verdict as the synchronous run *)
+Theorem C10_verdicts_agree : forall u P lg1 lg2 sol,
+  pr_soft P = [] -> check_unsat_log u P lg1 = true -> check_sat_log_lenient u P lg2 sol = true -> False.
+Proof. exact verdicts_agree. Qed.
